@@ -1,6 +1,7 @@
 package wire
 
 import (
+	"bufio"
 	"bytes"
 	"io"
 
@@ -50,6 +51,12 @@ type ReadCfg struct {
 	// ProbeAfterError: after NextFrame refused a frame, the application calls
 	// Read once more; what that returns is recorded in Outcome.AfterErr.
 	ProbeAfterError bool
+	// ProbeIdle: after a data message has been read to its end or discarded,
+	// the application calls Read without NextFrame; like a new Reader, the
+	// Reader must answer (0, ErrNoFrameAdvance).
+	ProbeIdle bool
+	// Bufio > 0: Reader.Source is a *bufio.Reader of that size over the transport.
+	Bufio int
 }
 
 func (c ReadCfg) Name() string {
@@ -187,8 +194,18 @@ func readUnit(r *eng.Run, p *Pipe, rd io.Reader, discard func() error, rec *Rec,
 }
 
 func appReader(r *eng.Run, p *Pipe, cfg ReadCfg, o *Outcome) {
+	var src io.Reader = p
+	pos := p.Consumed
+	if cfg.Bufio > 0 {
+		// The application reads the connection through its own bufio.Reader
+		// (the usual arrangement after a handshake that returned one).
+		br := bufio.NewReaderSize(p, cfg.Bufio)
+		src = br
+		pos = func() int { return p.Consumed() - br.Buffered() }
+		r.Probe("reader_source_is_bufio_reader")
+	}
 	rd := &wsutil.Reader{
-		Source:          p,
+		Source:          src,
 		State:           cfg.State(),
 		CheckUTF8:       cfg.CheckUTF8,
 		MaxFrameSize:    cfg.MaxFrameSize,
@@ -198,7 +215,7 @@ func appReader(r *eng.Run, p *Pipe, cfg ReadCfg, o *Outcome) {
 	if cfg.OnInter > 0 {
 		mode := cfg.OnInter
 		rd.OnIntermediate = func(h ws.Header, src io.Reader) error {
-			rec := Rec{Kind: 'I', Op: byte(h.OpCode), Hdr: h, HasHdr: true, HdrAt: p.Consumed(), EndAt: -1}
+			rec := Rec{Kind: 'I', Op: byte(h.OpCode), Hdr: h, HasHdr: true, HdrAt: pos(), EndAt: -1}
 			var err error
 			switch mode {
 			case 1:
@@ -238,7 +255,7 @@ func appReader(r *eng.Run, p *Pipe, cfg ReadCfg, o *Outcome) {
 	}
 	if cfg.OnCont {
 		rd.OnContinuation = func(h ws.Header, src io.Reader) error {
-			o.Conts = append(o.Conts, ContRec{h, p.Consumed()})
+			o.Conts = append(o.Conts, ContRec{h, pos()})
 			return nil
 		}
 	}
@@ -256,12 +273,12 @@ func appReader(r *eng.Run, p *Pipe, cfg ReadCfg, o *Outcome) {
 			}
 			return
 		}
-		rec := &Rec{Kind: 'M', Op: byte(h.OpCode), Hdr: h, HasHdr: true, HdrAt: p.Consumed()}
+		rec := &Rec{Kind: 'M', Op: byte(h.OpCode), Hdr: h, HasHdr: true, HdrAt: pos()}
 		if h.OpCode.IsControl() {
 			rec.Kind = 'C'
 		}
 		if cfg.SkipEmpty && h.Length == 0 && h.Fin {
-			rec.EndAt = p.Consumed()
+			rec.EndAt = pos()
 			o.Recs = append(o.Recs, *rec)
 			continue
 		}
@@ -281,8 +298,15 @@ func appReader(r *eng.Run, p *Pipe, cfg ReadCfg, o *Outcome) {
 			}
 			return
 		}
-		rec.EndAt = p.Consumed()
+		rec.EndAt = pos()
 		o.Recs = append(o.Recs, *rec)
+		if cfg.ProbeIdle && rec.Kind == 'M' {
+			var b [8]byte
+			if n, err := rd.Read(b[:]); n != 0 || err != wsutil.ErrNoFrameAdvance {
+				r.Failf("reader_not_as_new_after_message", "Read without NextFrame after a finished message returned (%d, %v); a new Reader returns (0, %v)", n, err, wsutil.ErrNoFrameAdvance)
+			}
+			r.Probe("read_without_next_frame_after_message")
+		}
 	}
 }
 
